@@ -366,6 +366,7 @@ class World:
         self.after_build = []      # fn(world) called once server and client nodes exist, before the run starts
         self.violations = []
         self.probes = collections.Counter()
+        self.maxima = {}           # name -> value, aggregated with max() over the runs of a batch
         self.end_time = c["duration"]
         self.stopped = False
         # logs
